@@ -41,18 +41,19 @@ def set_path(p):
 is_test = os.path.isdir(demo + '/tests') or 'test' in open(src + '/README.md').read().lower()
 cmd = 'cargo test --offline 2>&1 | tail -15' if is_test else 'cargo run --offline 2>&1 | tail -15'
 set_path(wt)
-rc1, o1 = sh(cmd + '; exit ${PIPESTATUS[0]}', cwd=demo, env={'CARGO_TARGET_DIR': '/tmp/sv_target_demo'})
+rc1, o1 = sh(cmd + '; exit ${PIPESTATUS[0]}', cwd=demo, env={'CARGO_TARGET_DIR': demo + '_target'})
 set_path('/repo')
-rc2, o2 = sh(cmd + '; exit ${PIPESTATUS[0]}', cwd=demo, env={'CARGO_TARGET_DIR': '/tmp/sv_target_demo'})
+rc2, o2 = sh(cmd + '; exit ${PIPESTATUS[0]}', cwd=demo, env={'CARGO_TARGET_DIR': demo + '_target'})
 res['demo_with_change'] = {'exit': rc1, 'tail': o1[-400:]}
 res['demo_without_change'] = {'exit': rc2, 'tail': o2[-300:]}
 # 3. checks
 for c in checks:
     t0 = time.time()
-    rc, o = sh('./check %s' % c, cwd='/verif', env={'VERIF_REPO': wt, 'VERIF_WORK': '/verif/work_seed', 'VERIF_TARGET': '/verif/work_seed/target', 'VERIF_EVIDENCE_DIR': '/verif/work_seed/evidence', 'VERIF_REPLAY_DIR': '/verif/work_seed/replay'})
+    HOME_ = os.environ.get('SEED_VERIF_HOME', '/verif')
+    rc, o = sh('python3 %s/vf/main.py %s' % (HOME_, c), cwd=HOME_, env={'VERIF_HOME': HOME_, 'VERIF_REPO': wt, 'VERIF_WORK': '/verif/work_seed', 'VERIF_TARGET': '/verif/work_seed/target', 'VERIF_EVIDENCE_DIR': '/verif/work_seed/evidence', 'VERIF_REPLAY_DIR': '/verif/work_seed/replay'})
     lines = [l for l in o.splitlines() if l.startswith('VIOLATION') or l.startswith('KNOWN') or l.startswith(c + ':')]
     res['checks'][c] = {'exit': rc, 'violation_lines': len([l for l in lines if l.startswith('VIOLATION')]), 'first': [l[:260] for l in lines[:3]], 'summary': lines[-1] if lines else o[-300:], 'wall_s': round(time.time() - t0)}
-shutil.rmtree(demo, ignore_errors=True)
+shutil.rmtree(demo, ignore_errors=True); shutil.rmtree(demo + '_target', ignore_errors=True)
 shutil.rmtree('/verif/work_seed', ignore_errors=True)
 sh('git -C /repo worktree remove --force %s' % wt)
 print(json.dumps(res, indent=1))
